@@ -34,6 +34,11 @@ def gen(rng, tier):
             cases.append(Case("shahist %s I %s F" % (t, " ".join("U:" + hexs(p) for p in parts)),
                               "%s incremental first%%B=%d n%%B=%d" % (t, len(parts[0]) % b, n % b), True,
                               spec="spec.cat %s %s" % (t, hexs(m))))
+        # the context as an object: copies, self-assignment, assignment onto a used context, save / restore
+        for a_len in [1, b - 9, b, b + 1, rng.randrange(0, 3 * b)]:
+            a = contents(rng, a_len, "rand"); bb = contents(rng, rng.choice([0, 1, 9, b]), "rand"); junk = contents(rng, rng.choice([1, b + 3]), "rand")
+            for opx in ["K", "Y", "G:" + hexs(junk), "V R"]:
+                cases.append(Case("shahist %s I U:%s %s U:%s F" % (t, hexs(a), opx, hexs(bb)), "%s object-op %s a%%B=%d" % (t, opx[0], a_len % b), True, spec="spec.cat %s %s" % (t, hexs(a + bb))))
         # state-injected totals: length-field arithmetic at sizes no run can reach
         for total in [2 ** 29, 2 ** 32, 2 ** 35, 2 ** 61 - 2 * b, 2 ** 61 - b]:
             for delta in [-2 * b, -b, 0, b]:
@@ -43,7 +48,27 @@ def gen(rng, tier):
                     m = contents(rng, tail, "rand")
                     cases.append(Case("shahist %s I J:%d U:%s F" % (t, tot, hexs(m)),
                                       "%s inject 2^%d tail-%s" % (t, total.bit_length() - 1, pad_class(t, tail)), True))
+    # every API family once during static initialisation of the driver (before the library's own dynamic initialisers have run)
+    cases.append(Case("staticinit", "static-initialisation battery", True, spec="staticinit"))
     return cases
+
+def extra(ctx):
+    """One update() call of more than 2^32 bytes (zero pages): the one-shot forms, get_hash and a 16 MiB-chunked context must agree;
+    when they do not, hashlib (search oracle only) tells which form is wrong."""
+    import hashlib, core
+    n = 2 ** 32 + 69
+    lines = ["shahuge %s %d %d" % (t, n, 1 if ctx["tier"] == "thorough" else 0) for t in HASHES]
+    res = core.run_lines(ctx["drv"], lines, ctx["rundir"], "huge", shards=3, timeout=1500)
+    ctx["extra_cov"]["single_call_over_4GiB"] = dict(bytes=n, results=[r[:40] for r in res])
+    out = []
+    for t, r in zip(HASHES, res):
+        if r == "agree": continue
+        h = hashlib.new(t); chunk = bytes(1 << 24); left = n
+        while left > 0:
+            k = min(left, len(chunk)); h.update(chunk[:k]); left -= k
+        out.append(("huge", "a single update of %d zero bytes: entry points disagree (%s); FIPS digest (hashlib) is %s" % (n, r[:400], h.hexdigest()),
+                    dict(key="shahuge %s" % t, cases=[dict(case="shahuge %s %d 1" % (t, n))], implementation=r, spec="agree " + h.hexdigest())))
+    return out
 
 def search(ctx):
     """Injected-state cases disagree: look for a real message of that size on which the implementation differs
